@@ -867,7 +867,8 @@ impl Arena {
       return Err(Error::ReadOnly);
     }
 
-    if mem::size_of::<T>() == 0 {
+    // a zero-sized `T` needs no room of its own, but the bytes that follow it still have to be aligned for it
+    if mem::size_of::<T>() == 0 && (extra == 0 || mem::align_of::<T>() == 1) {
       return self.alloc_bytes_in(extra);
     }
 
